@@ -13,7 +13,7 @@ import numpy as np
 from engine import bind
 
 from .assembly import build_shells
-from .common import Frame, tag
+from .common import Frame, PathLog, tag
 from .density import sym_dm
 
 
@@ -62,7 +62,7 @@ class ESP:
             nuc = M.vec("Rn", (A, 3))
         Z = M.vec("Z", A)
         V = M.vec("V", (korb, korb, N), "opq")
-        calls = []
+        calls = PathLog()
 
         def pci(basis_, pts, charges, transform=None):
             calls.append((basis_, pts, charges, transform))
@@ -80,14 +80,14 @@ class ESP:
             return
 
         def body():
-            del calls[:]
+            calls.begin()
             with bind.patched((esp, "point_charge_integral", pci)):
                 return esp.electrostatic_potential(basis, dm, points, nuc, Z, transform=U, **kw)
 
         fr = Frame(dm=dm, points=points, nuc=nuc, Z=Z)
         paths = M.paths(body)
         fr.check(M, "esp")
-        ok = len(calls) == 1 and calls[0][0] is basis and calls[0][1] is points and calls[0][3] is U
+        ok = calls.every(lambda cs: len(cs) == 1 and cs[0][0] is basis and cs[0][1] is points and cs[0][3] is U)
         M.true("esp/pre@point_charge_integral/args", ok, "basis, points, transform forwarded")
         if calls:
             q = calls[0][2]
